@@ -35,7 +35,10 @@ SeedFields == <<
     Fld(512, 1, 1, 0, 0, P10, 3, 3, 2, <<>>),
     Fld(512, 1, 1, 1, 0, P10, 3, 258, 257, <<1, 125, 65>>),
     Fld(2, 0, 0, 0, 0, <<126, 125, 1, 2, 153, 126>>, 1, 0, 0, <<2>>),
-    Fld(2, 1, 0, 0, 0, <<125, 126, 2, 1, 125, 125, 126, 126, 0, 125>>, 1, 0, 0, <<>>) >>
+    Fld(2, 1, 0, 0, 0, <<125, 126, 2, 1, 125, 125, 126, 126, 0, 125>>, 1, 0, 0, <<>>),
+    \* message ids that need escaping themselves (0x0F7D, 0x7E00, 0x7D7E), and the all-zero phone in both layouts
+    Fld(3965, 0, 0, 0, 0, P6, 1, 0, 0, <<1>>), Fld(32256, 1, 0, 0, 0, P10, 2, 0, 0, <<>>), Fld(32126, 0, 1, 0, 0, P6, 3, 2, 2, <<125>>),
+    Fld(2, 0, 0, 0, 0, <<0, 0, 0, 0, 0, 0>>, 1, 0, 0, <<>>), Fld(512, 1, 0, 0, 0, <<0, 0, 0, 0, 0, 0, 0, 0, 0, 0>>, 1, 0, 0, <<65>>) >>
 \* seed whose checksum is 7D, sent escaped and sent raw (the tolerated deviation)
 Cs7D == LET x == Fld(2, 0, 0, 0, 0, P6, 1, 0, 0, <<0>>)
             c == XorAll(HeaderBytes(x, 1) \o <<0>>)
